@@ -674,6 +674,9 @@ func drawKind(t *rapid.T, families []string) Kind {
 	case "collation-und":
 		return MustKind("coll:und:" + pick(t, []string{"string", "bytes", "runes"}, "ckt"))
 	case "compound":
+		if drawInt(t, 0, 5, "rawcmp") == 0 {
+			return MustKind("cmpraw:bytes") // []byte keys with the library's pass-through codec
+		}
 		return drawCompoundKind(t)
 	}
 	panic("unknown family")
